@@ -151,6 +151,11 @@ class Col:
         kind = "real" if self.kind == "real" else "int"
         return symnp.SymArr.fresh((self.rows.n,), lambda idx: f(to_int(idx[0])), kind)
 
+    def to_numpy(self, *a, **k):
+        if a or k:
+            raise core.Unsupported("Series.to_numpy with options on a symbolic column")
+        return self.values
+
 
 class BoolCol:
     def __getattr__(self, name):
@@ -200,10 +205,17 @@ class ColSet:
 
     def __sub__(self, other):
         items = getattr(other, "items", None)
+        if items is None and hasattr(other, "contains_expr"):
+            items = other  # (the item list itself: set.difference accepts any iterable)
         if items is None or not hasattr(items, "contains_expr"):
             raise core.Unsupported("set difference with a non-symbolic item set")
         col = self.col
         return ExtraItems(BoolCol(col.rows, lambda i: z3.Not(items.contains_expr(col.fn(i)))))
+
+    def difference(self, *others):
+        if len(others) != 1:
+            raise core.Unsupported("set.difference with several arguments on a symbolic column set")
+        return self.__sub__(others[0])
 
 
 class ExtraItems:
@@ -315,6 +327,15 @@ class SymTable:
             cols[nm] = Col(rows2, col.kind, (lambda col: lambda j: col.fn(emb(to_int(j))))(col), isna=(lambda col: lambda j: col.isna_fn(emb(to_int(j))))(col), name=nm)
         return SymTable(rows2, cols)
 
+    def to_numpy(self, *a, **k):
+        if a or k:
+            raise core.Unsupported("DataFrame.to_numpy with options on a symbolic table")
+        return self.values
+
+    @property
+    def loc(self):
+        return _RowSelector(self)
+
     @property
     def values(self):
         names = list(self.cols)
@@ -337,6 +358,18 @@ class SymTable:
 
     def itertuples(self, *a, **k):
         return Opaque("index tuples")
+
+
+class _RowSelector:
+    """df.loc[<boolean column>]: the rows for which it holds (what df[<boolean column>] gives)"""
+
+    def __init__(self, table):
+        self.table = table
+
+    def __getitem__(self, key):
+        if isinstance(key, BoolCol):
+            return self.table.filter(key)
+        raise core.Unsupported(f".loc with {type(key).__name__} on a symbolic table")
 
 
 class Duplicated(BoolCol):
@@ -408,6 +441,12 @@ class FakeItertools:
     def product(self, *a, **k):
         if any(hasattr(x, "contains_expr") for x in a):
             return Opaque("all label combinations")
+        if a and not k and any(isinstance(x, symnp.SymRange) for x in a):
+            # itertools.product(range(n0), range(n1), ...) = np.ndindex(n0, n1, ...): the same index tuples in the
+            # same order (the pending loop contract cuts the loop over them)
+            if all((isinstance(x, symnp.SymRange) and isinstance(x.lo, int) and x.lo == 0) or (isinstance(x, range) and x.start == 0 and x.step == 1) for x in a):
+                return symnp.sym_ndindex(*[(x.hi if isinstance(x, symnp.SymRange) else len(x)) for x in a], _depth=2)
+            raise core.Unsupported("itertools.product over ranges that do not start at 0")
         return itertools.product(*a, **k)
 
     def __getattr__(self, name):
